@@ -323,16 +323,21 @@ def specs(tier):
     Mo = "checks.c15"
     out = []
     fam = [("square", [0]), ("square", [0, 2]), ("tri", [1, 1]), ("penta", [0, 3]), ("quad", [2, 2]), ("square", [0, 0, 2]), ("tri", [2, 0, 0])]
+    fam += [("penta", [1, 1, 4]), ("ell", [0, 2, 5]), ("quad", [3, 3, 3]), ("tri", [0, 1, 2])]
     if tier != "quick":
-        fam += [("penta", [1, 1, 4]), ("ell", [0, 2, 5]), ("quad", [3, 3, 3]), ("tri", [0, 1, 2])]
+        fam += [("you", [0, 3, 7]), ("youb", [2, 2, 5]), ("rhombus", [0, 1, 1]), ("notchtri", [1, 2, 2]), ("ell", [5, 5, 5]), ("square", [0, 1, 2, 3]), ("tri", [0, 0, 1, 1])]
     for p, ix in fam:
         out.append(dict(module=Mo, scenario="JSplit", params=dict(poly=p, indexs=ix)))
     cl = [("square", [0], ["1/2"]), ("tri", [1, 1], ["1/4", "2/3"]), ("penta", [0, 3], ["1/3", "1/7"]), ("quad", [2, 2, 0], ["1/5", "4/5", "1/2"])]
+    cl += [("ell", [0, 2, 5], ["1/2", "1/2", "9/10"]), ("you", [1, 1, 1], ["1/8", "1/2", "7/8"]), ("square", [0, 1, 2, 3], ["1/2", "1/3", "1/4", "1/5"])]
     if tier != "quick":
-        cl += [("ell", [0, 2, 5], ["1/2", "1/2", "9/10"]), ("you", [1, 1, 1], ["1/8", "1/2", "7/8"]), ("square", [0, 1, 2, 3], ["1/2", "1/3", "1/4", "1/5"])]
+        cl += [("youb", [0, 0, 4, 7], ["1/3", "2/3", "1/2", "1/9"]), ("penta", [0, 1, 2, 3, 4], ["1/2", "1/3", "2/3", "1/7", "6/7"]), ("notchtri", [2, 2, 2], ["1/10", "1/2", "9/10"]),
+               ("rhombus", [3, 3], ["1/1000", "999/1000"])]
     for p, ix, ns in cl:
         out.append(dict(module=Mo, scenario="JSplit", params=dict(poly=p, indexs=ix, nodes=ns)))
-    for ch, ix, ns in [("q1", 1, ["1/3"]), ("q2", 0, ["1/4"]), ("c1", 0, ["2/5"])] + ([("q2", 1, ["1/3", "3/4"]), ("c1", 0, ["1/2"]), ("q1", 1, ["1/2"])] if tier != "quick" else []):
+    for ch, ix, ns in [("q1", 1, ["1/3"]), ("q2", 0, ["1/4"]), ("c1", 0, ["2/5"]), ("q2", 1, ["1/3", "3/4"]), ("c1", 0, ["1/2"]), ("q1", 1, ["1/2"])] + (
+        [("q1", 1, ["1/5", "1/2", "4/5"]), ("q2", 0, ["1/8", "7/8"]), ("c1", 0, ["1/10", "3/10", "7/10"]), ("q2", 1, ["9/10"])] if tier != "quick" else []
+    ):
         out.append(dict(module=Mo, scenario="CurvedSplitClean", params=dict(chain=ch, index=ix, nodes=ns)))
     return out
 
